@@ -262,6 +262,12 @@ class Check:
                 self.notes.append("NOTE property=%s translator tie %s unavailable (%s); verdict rests on the hand-written model + correspondence check"
                                   % (self.pid, fam, entry["reason"][:200]))
         tie["status"] = "proved" if all(e["status"] == "proved" for e in tie["families"].values()) else "partly unavailable"
+        proved = [e["module"] for e in tie["families"].values() if e["status"] == "proved"]
+        if proved:
+            self.cov["checker_cmd"] += " ; python3 tools/rs2lean.py && lake build %s && <audit: #print axioms of every theorem in them>" % " ".join(proved)
+            tb = "tools/rs2lean.py (Rust-subset -> Lean translation scheme, DESIGN.md 3c) for the theorems of " + ", ".join(proved)
+            if tb not in self.cov["trusted_base"]:
+                self.cov["trusted_base"].append(tb)
         return tie
 
     # ------------------------------------------------------------------ stage 3: harness
